@@ -1,0 +1,18 @@
+//! Thin wrappers around crate-private codec entry points (`ln::wire::read`, onion failure helpers).
+use crate::ln::msgs::DecodeError;
+use crate::ln::peer_handler::IgnoringMessageHandler;
+use crate::ln::wire;
+use crate::ln::wire::Type;
+use crate::util::ser::Writeable;
+
+/// Decodes a type-prefixed wire message with `ln::wire::read` and, on success, returns its type id,
+/// its `Debug` rendering and its re-encoding (2-byte type prefix included).
+pub fn wire_read(bytes: &[u8]) -> Result<(u16, String, Vec<u8>), (DecodeError, Option<u16>)> {
+	let mut slice = bytes;
+	let msg = wire::read(&mut slice, &IgnoringMessageHandler {})?;
+	let type_id = msg.type_id();
+	let dbg = format!("{:?}", msg);
+	let mut out = type_id.encode();
+	out.extend_from_slice(&msg.encode());
+	Ok((type_id, dbg, out))
+}
